@@ -436,3 +436,102 @@ Proof.
   destruct Go as [Ostd [Olk Oinc]].
   exact (chain_fold0 (rn (cu_lib c)) (through_event hd c) (fun x => eq_refl) (fun x => eq_refl) own Ostd Olk Oinc).
 Qed.
+
+(* ---------------------------------------------------------------- the own branch and the chain *)
+
+Lemma chain_to_prefix : forall d l2 cur n l1 x, chain_to d cur n (l1 ++ x :: l2) ->
+  chain_to d (sid x) (snum x) (l1 ++ [x]).
+Proof.
+  intros d l2. induction l2 as [|z l2 IH] using rev_ind; intros cur n l1 x H.
+  - destruct (chain_to_top _ _ _ _ _ H) as [e [Hf [-> Hc]]]. cbn. exact H.
+  - replace (l1 ++ x :: l2 ++ [z]) with ((l1 ++ x :: l2) ++ [z]) in H by (rewrite <- app_assoc; reflexivity).
+    destruct (chain_to_top _ _ _ _ _ H) as [e [Hf [_ Hc]]]. eapply IH. exact Hc.
+Qed.
+
+Lemma branch_chain : forall d sg id path j, branch_to d sg id path j ->
+  forall pj, chain_to d j (num_or0 d j) pj -> chain_to d id (num_or0 d id) (pj ++ rev path).
+Proof.
+  intros d sg id path j B. induction B as [id e Hf Hin|id e l j Hf Hin B IH]; intros pj Hpj.
+  - cbn [rev app]. rewrite (num_or0_stored d id e Hf). constructor; assumption.
+  - cbn [rev]. rewrite app_assoc. rewrite (num_or0_stored d id e Hf). constructor; [exact Hf|]. apply IH. exact Hpj.
+Qed.
+
+Lemma lib_on_chain : forall sg s0 rest c, good_seg sg -> sg = s0 :: rest ->
+  (exists x, In x sg /\ sid x = ri (cu_lib c) /\ snum x = rn (cu_lib c)) ->
+  snum s0 <= rn (cu_lib c) /\ block_in (ri (cu_lib c)) sg = true.
+Proof.
+  intros sg s0 rest c [Hstd _ Hinc _] -> [x [Hx [Hxi Hxn]]].
+  split; [|apply block_in_spec; eauto].
+  rewrite <- Hxn. destruct Hx as [<-|Hx]; [lia|].
+  inversion Hinc as [|? ? _ Hall]; subst. rewrite Forall_forall in Hall. specialize (Hall x Hx).
+  rewrite Forall_forall in Hstd. apply N.lt_le_incl. apply snum_lt_of; auto; apply Hstd; [left; reflexivity|right; exact Hx].
+Qed.
+
+Lemma starts_within_cons : forall sg start, starts_within sg start ->
+  exists c0 rest, sg = c0 :: rest /\ bnum (seg_blk c0) <= start.
+Proof. intros [|c0 rest] start H; [contradiction|]. exists c0, rest. auto. Qed.
+
+Lemma through_forked_eq : forall s hd sg start c csg,
+  wf_state s -> head_chain s hd sg -> starts_within sg start ->
+  block_in (ri (cu_blk c)) sg = false -> cursor_numbered (db s) c ->
+  complete_segment (db s) (cu_blk c) = Some (csg, true) ->
+  starts_within csg start -> start <= rn (cu_blk c) ->
+  blocks_through_cursor s start c =
+    match blocks_from_cursor s c with
+    | BOk evs => BOk (map (through_event hd c) (filter (through_keep start c) csg) ++ evs)
+    | other => other
+    end.
+Proof.
+  intros s hd sg start c csg W HC Hst Hin Hnum E Hcst Hle.
+  destruct (c05_through_forked_proof s hd sg start c W HC Hst Hin Hnum) as [csg' [reach' [E' [_ [_ [_ [_ [_ [_ [_ [_ [_ Hmain]]]]]]]]]]]].
+  rewrite E in E'. injection E' as <- <-.
+  destruct (starts_within_cons _ _ Hcst) as [c0 [rest [Ecsg Hc0]]].
+  destruct (Hmain eq_refl c0 rest Ecsg Hc0 Hle) as [H _]. exact H.
+Qed.
+
+Lemma c05_through_forked_burst_proof : C05_through_forked_burst.
+Proof.
+  intros s hd sg start c csg path j W HC Hst Hin Hnum E Hcst Hle Hlib B.
+  destruct (head_chain_good s hd sg W HC) as [G [Hstored _]].
+  pose proof W as [[Wst _] _].
+  pose proof (branch_to_junction _ _ _ _ _ B) as Hj.
+  pose proof Hj as Hj'. apply block_in_spec in Hj'. destruct Hj' as [xj [Hxj Hxji]].
+  apply in_split in Hxj. destruct Hxj as [lo [hi Esg]].
+  assert (Hfj : find j (store (db s)) = Some (sent xj)).
+  { rewrite <- Hxji. apply Hstored. rewrite Esg. apply in_app_iff. right. left. reflexivity. }
+  exists (sent xj). split; [exact Hfj|]. cbn zeta. split.
+  - rewrite (through_forked_eq s hd sg start c csg W HC Hst Hin Hnum E Hcst Hle).
+    destruct (starts_within_cons _ _ Hst) as [s0 [rest [Es0 _]]].
+    destruct (lib_on_chain sg s0 rest c G Es0 Hlib) as [Hs0 Hlin].
+    pose proof HC as [Hl [Hh Eh]]. rewrite Es0 in Eh.
+    rewrite (blocks_from_cursor_eq s c hd s0 rest Hl Hh Eh Hs0). rewrite <- Es0.
+    change (fuel_of (db s)) with (S (S (length (store (db s))))).
+    rewrite (loop_forked s hd sg c (length (store (db s))) Wst Hstored Hlin Hin path j (sent xj) B Hfj).
+    reflexivity.
+  - exists lo, xj, hi. split; [exact Esg|]. split; [exact Hxji|].
+    destruct (numbered_segment_good (db s) (cu_blk c) csg true Wst E Hnum) as [_ [_ [Cc _]]].
+    pose proof HC as [_ [_ Eh]].
+    pose proof (segment_of_chain_to _ _ _ _ (complete_segment_segment_of _ _ _ _ Eh)) as Ch.
+    rewrite Esg in Ch. apply chain_to_prefix in Ch.
+    assert (Hxn : snum xj = num_or0 (db s) j).
+    { rewrite (num_or0_stored _ _ _ Hfj). destruct G as [Hstd _ _ _]. apply (std_num _ Hstd).
+      rewrite Esg. apply in_app_iff. right. left. reflexivity. }
+    rewrite Hxji, Hxn in Ch.
+    pose proof (branch_chain _ _ _ _ _ B _ Ch) as Cb.
+    destruct (branch_to_head _ _ _ _ _ B) as [e [rest [Hfe _]]].
+    rewrite (num_or0_stored _ _ _ Hfe), (Hnum e Hfe) in Cb.
+    rewrite (chain_to_det _ _ _ _ Cb _ Cc). rewrite <- app_assoc. reflexivity.
+Qed.
+
+(* ---------------------------------------------------------------- 3. hub.SourceThroughCursor *)
+
+Lemma num_answer_from_num : forall s n, from_num_spec s n -> num_answer_spec s n (blocks_from_num s n).
+Proof. intros s n H. exact H. Qed.
+
+Lemma c05_hub_through_proof : C05_hub_through.
+Proof.
+  intros s start c. unfold hub_through_cursor. split; [|split].
+  - intros H. apply N.ltb_lt in H. rewrite H. reflexivity.
+  - intros H W. apply N.ltb_lt in H. rewrite H. apply num_answer_from_num. apply c09_from_num_proof. exact W.
+  - intros H. apply N.ltb_ge in H. rewrite H. reflexivity.
+Qed.
